@@ -247,3 +247,30 @@ MUTATORS = {
     "clear", "update", "setdefault", "add", "discard", "sort", "reverse", "rotate", "__setitem__",
     "__delitem__", "difference_update", "intersection_update", "symmetric_difference_update",
 }
+
+
+_LOG_METHODS = (".debug", ".info", ".warning", ".warn", ".error", ".exception", ".critical")
+
+
+def inert(s: ast.stmt) -> bool:
+    """Statements that cannot change what a rule decides: docstrings / bare constants, ``pass`` and calls of
+    logging methods, ``print`` and ``warnings.warn`` (total by the exception policy, no state written)."""
+    if isinstance(s, ast.Pass):
+        return True
+    if isinstance(s, ast.Expr):
+        if isinstance(s.value, ast.Constant):
+            return True
+        if isinstance(s.value, ast.Call):
+            cn = call_name(s.value) or ""
+            if cn in ("print", "warnings.warn", "warn") or cn.endswith(_LOG_METHODS):
+                # the arguments themselves must not call anything that is not plainly a formatting helper
+                inner = [c for a in list(s.value.args) + [k.value for k in s.value.keywords] for c in ast.walk(a) if isinstance(c, ast.Call)]
+                return all((call_name(c) or "") in ("str", "repr", "len", "type", "id", "list", "sorted", "short_uid") or (call_name(c) or "").endswith(".format") for c in inner)
+    return False
+
+
+def body(stmts) -> list[ast.stmt]:
+    """A statement list without its inert statements (see ``inert``)."""
+    if isinstance(stmts, (ast.FunctionDef, ast.AsyncFunctionDef)):
+        stmts = stmts.body
+    return [s for s in stmts if not inert(s)]
